@@ -20,7 +20,7 @@ import typing
 
 from typelib.py import frames, future, inspection
 
-__all__ = ("ForwardRef", "evaluate", "forwardref")
+__all__ = ("ForwardRef", "evaluate", "forwardref", "cache")
 
 ForwardRef: typing.TypeAlias = typing.ForwardRef
 
@@ -137,8 +137,8 @@ else:
             return nref._evaluate(globalns, localns, recursive_guard)
 
 
-@functools.cache
 def _resolve_module_name(ref: str, module: str | None) -> str | None:
+    # N.B.: The answer depends on the call stack - it must never be memoized by `ref`.
     if module is not None:
         return module
 
@@ -147,7 +147,17 @@ def _resolve_module_name(ref: str, module: str | None) -> str | None:
     module = ref.split(".", maxsplit=1)[0]
     if module != ref and module.isidentifier():
         return module
-    # Harder path, find the actual object in the stack frame, if possible.
+    # Harder path, find the nearest calling module which binds the name, if possible.
+    #   The name is evaluated in that module's namespace, so it is the module of the
+    #   binding which counts, not the module of the object (think `Alias = list[int]`).
+    #   The frames of this library are not the caller's namespace.
+    frame = inspect.currentframe()
+    while frame:
+        modname = frame.f_globals.get("__name__")
+        if ref in frame.f_globals and modname and not _isinternal(modname):
+            return modname
+        frame = frame.f_back
+    # Still harder, find the actual object in the stack frame, if possible.
     obj = frames.extract(ref)
     module = getattr(obj, "__module__", None)
     if module:
@@ -156,3 +166,29 @@ def _resolve_module_name(ref: str, module: str | None) -> str | None:
     caller = frames.getcaller()
     module = getattr(inspect.getmodule(caller), "__name__", None)
     return module
+
+
+def _isinternal(modname: str) -> bool:
+    return modname.split(".", maxsplit=1)[0] == frames.PKG_NAME
+
+
+_CallableT = typing.TypeVar("_CallableT", bound=typing.Callable)
+
+
+def cache(func: _CallableT) -> _CallableT:
+    """Memoize a function of a type annotation or reference, as [`functools.cache`][].
+
+    A bare reference string names a different type in every calling module, so it is
+    turned into a module-qualified [`typing.ForwardRef`][] before it may key the cache.
+    """
+    cached = functools.cache(func)
+
+    @functools.wraps(func)
+    def wrapper(t, *args, **kwargs):
+        if isinstance(t, str):
+            t = forwardref(t)
+        return cached(t, *args, **kwargs)
+
+    wrapper.cache_clear = cached.cache_clear  # type: ignore[attr-defined]
+    wrapper.cache_info = cached.cache_info  # type: ignore[attr-defined]
+    return typing.cast(_CallableT, wrapper)
